@@ -4,7 +4,7 @@
    input is obtained from the check of the row walk on the lookahead string that the remaining input begins with. *)
 From Coq Require Import List ZArith Bool Arith Lia.
 From TM Require Import Gram.Cfg Gram.PTables Gram.Run Gram.Derive Gram.Validator Gram.Validator_proofs Gram.LRSound
-                       Gram.OptimizeSpec_proofs Gram.ValidatorKC.
+                       Gram.OptimizeSpec_proofs Gram.ValidatorK Gram.ValidatorK_proofs Gram.ValidatorKC.
 Import ListNotations.
 Local Open Scope Z_scope.
 
@@ -590,3 +590,81 @@ Proof.
 Qed.
 
 End PKC.
+
+(* ================= the two layers, packaged ================= *)
+(* closure of the certificate: everything check_kc checks EXCEPT the answers of the table cells / deep rows *)
+Definition cert_closed (g : grammar) (t : default_enc) (rule_len rule_sym finals : list Z) (k : nat) (ftk : fk_table) (kann : kcert) : Prop :=
+  (1 <= vT g /\ 0 <= g_nonterms g /\
+   (forall rl, In rl (g_rules g) -> vT g <= r_lhs rl < vNS g /\ forall s, In s (r_rhs rl) -> 1 <= s < vNS g) /\
+   (forall inp, In inp (g_inputs g) -> vT g <= fst inp < vNS g)) /\
+  (forall rl, In rl (g_rules g) -> incl (firstk_seq g k ftk (r_rhs rl)) (fk_get ftk (r_lhs rl))) /\
+  (forall q r d L rl X, In (r, d, L) (kitems kann q) -> arule g r = Some rl -> nth_error (r_rhs rl) d = Some X ->
+     0 <= goto_state t q X /\ exists L', In (r, S d, L') (kitems kann (goto_state t q X)) /\ incl L L') /\
+  (forall q r d L rl X r' rl',
+     In (r, d, L) (kitems kann q) -> arule g r = Some rl -> nth_error (r_rhs rl) d = Some X -> vT g <= X ->
+     nth_error (g_rules g) r' = Some rl' -> r_lhs rl' = X ->
+     exists L0, In (r', O, L0) (kitems kann q) /\ incl (concat_k k (firstk_seq g k ftk (skipn (S d) (r_rhs rl))) L) L0) /\
+  (forall r rl, nth_error (g_rules g) r = Some rl ->
+     zn rule_len (Z.of_nat r) = Z.of_nat (length (r_rhs rl)) /\ zn rule_sym (Z.of_nat r) = r_lhs rl) /\
+  (forall i nt eoi, nth_error (g_inputs g) i = Some (nt, eoi) ->
+     (exists L, In ((nrules g + i)%nat, O, L) (kitems kann (Z.of_nat i)) /\ In [] L) /\
+     (if eoi : bool then goto_state t (goto_state t (Z.of_nat i) nt) 0 = final_of finals i
+      else goto_state t (Z.of_nat i) nt = final_of finals i)).
+
+(* the ORACLE: on every remaining input [inp] that begins with a lookahead string of the certificate, the loop (cell,
+   Lalr row, deep rows walked over [tl inp]) answers the action of the item that carries the string *)
+Definition rows_agree (g : grammar) (t : default_enc) (k : nat) (ftk : fk_table) (kann : kcert) : Prop :=
+  (forall q r d L rl X w inp,
+     In (r, d, L) (kitems kann q) -> arule g r = Some rl -> nth_error (r_rhs rl) d = Some X -> X < vT g ->
+     In w (concat_k k [firstn k [X]] (concat_k k (firstk_seq g k ftk (skipn (S d) (r_rhs rl))) L)) ->
+     wmatch w inp -> LRSound.toks_ok g inp ->
+     default_act t q (LRSound.nxt inp) (tl inp) = Shift (goto_state t q X)) /\
+  (forall q r d L rl w inp,
+     In (r, d, L) (kitems kann q) -> nth_error (g_rules g) r = Some rl -> d = length (r_rhs rl) -> In w L ->
+     wmatch w inp -> LRSound.toks_ok g inp ->
+     default_act t q (LRSound.nxt inp) (tl inp) = Reduce (Z.of_nat r)).
+
+Theorem complete_of_oracle g t rule_len rule_sym finals k ftk kann :
+  cert_closed g t rule_len rule_sym finals k ftk kann -> rows_agree g t k ftk kann ->
+  forall i ws nt eoi, LRSound.toks_ok g ws -> nth_error (g_inputs g) i = Some (nt, eoi) -> sentence g nt eoi ws ->
+  exists fuel, fst (parse fuel (default_machine t rule_len rule_sym) finals i ws) = Accept.
+Proof.
+  intros (H1 & H2 & H3 & H4 & H5 & H6) (H7 & H8) i ws nt eoi Hws.
+  exact (parse_complete_abs g t rule_len rule_sym finals k ftk kann H1 H2 H3 H4 H5 H6 H7 H8 i ws Hws nt eoi).
+Qed.
+
+(* check_kc establishes both layers *)
+Theorem check_kc_conditions g t rule_len rule_sym nstates finals k ftk kann :
+  check_kc g t rule_len rule_sym nstates finals k ftk kann = true ->
+  cert_closed g t rule_len rule_sym finals k ftk kann /\ rows_agree g t k ftk kann.
+Proof.
+  intros Hchk.
+  pose proof (C_rules _ _ _ _ _ _ _ _ _ Hchk) as HR. destruct HR as (HT1 & HR).
+  split; [split; [exact (conj HT1 HR)|]; repeat split|split].
+  - exact (C_firstk _ _ _ _ _ _ _ _ _ Hchk).
+  - destruct (C_advance _ _ _ _ _ _ _ _ _ Hchk _ _ _ _ _ _ H H0 H1) as (Ha & _). exact Ha.
+  - destruct (C_advance _ _ _ _ _ _ _ _ _ Hchk _ _ _ _ _ _ H H0 H1) as (_ & Ha & _). exact Ha.
+  - exact (C_closure _ _ _ _ _ _ _ _ _ Hchk).
+  - exact (proj1 (C_rule_tabs _ _ _ _ _ _ _ _ _ Hchk _ _ H)).
+  - exact (proj2 (C_rule_tabs _ _ _ _ _ _ _ _ _ Hchk _ _ H)).
+  - exact (proj1 (C_inputs _ _ _ _ _ _ _ _ _ Hchk _ _ _ H)).
+  - exact (proj2 (C_inputs _ _ _ _ _ _ _ _ _ Hchk _ _ _ H)).
+  - intros q r d L rl X w inp Hin Hr HX HT Hw Hm Hok.
+    destruct (C_advance _ _ _ _ _ _ _ _ _ Hchk _ _ _ _ _ _ Hin Hr HX) as (_ & _ & Hsh).
+    exact (act_ok_sound g t _ _ _ _ (Hsh HT w Hw) Hm Hok HT1).
+  - intros q r d L rl w inp Hin Hr Hd Hw Hm Hok.
+    exact (act_ok_sound g t _ _ _ _ (C_reduce _ _ _ _ _ _ _ _ _ Hchk _ _ _ _ _ _ Hin Hr Hd Hw) Hm Hok HT1).
+Qed.
+
+(* both checks together: the accepted language is exactly the language of the grammar *)
+Theorem exact_language_k g t rule_len rule_sym nstates finals ann k ftk kann :
+  check_k g t rule_len rule_sym nstates finals ann = true ->
+  check_kc g t rule_len rule_sym nstates finals k ftk kann = true ->
+  forall i ws nt eoi,
+  LRSound.toks_ok g ws -> nth_error (g_inputs g) i = Some (nt, eoi) ->
+  ((exists fuel, fst (parse fuel (default_machine t rule_len rule_sym) finals i ws) = Accept) <-> sentence g nt eoi ws).
+Proof.
+  intros H1 H2 i ws nt eoi Hws Hi. split.
+  - intros (fuel & H). exact (parse_sound_k g t rule_len rule_sym nstates finals ann H1 i nt eoi ws fuel Hi Hws H).
+  - exact (parse_complete_kc g t rule_len rule_sym nstates finals k ftk kann H2 i ws nt eoi Hws Hi).
+Qed.
